@@ -1262,7 +1262,7 @@ func (fc *FuncCtx) backEdge(li *loopInfo, p *ssa.BasicBlock, ec string, st *Stat
 		fc.eng.warn("%s %s: termination not claimed (decreases _)", fc.fnName, label)
 	default:
 		// rangeindex loops over a slice terminate by construction (bounded index); others need a measure
-		if fc.isRangeIndexLoop(li) {
+		if fc.isRangeIndexLoop(li) || len(li.strIters) > 0 && fc.isStringRangeHead(li) {
 			return
 		}
 		fc.oblige(label+"/variant", "missing"+suffix, ec, "false", "loop has no decreases clause: termination not shown", nil)
@@ -1283,6 +1283,16 @@ func rangeBound(b *ssa.BasicBlock, phi *ssa.Phi) ssa.Value {
 		}
 	}
 	return nil
+}
+
+// isStringRangeHead: the loop is `for ... := range someString` (its head block is the Next).
+func (fc *FuncCtx) isStringRangeHead(li *loopInfo) bool {
+	for _, in := range li.head.Instrs {
+		if nx, ok := in.(*ssa.Next); ok && nx.IsString {
+			return true
+		}
+	}
+	return false
 }
 
 func (fc *FuncCtx) isRangeIndexLoop(li *loopInfo) bool {
